@@ -196,3 +196,11 @@ theorem weights_maximise_Q (grp : Fin N → Fin G) (s : Fin N → ℝ) (γ π' :
 end weights
 
 end PbBss.EmProof
+
+namespace PbBss.EmProof
+
+/-- component part of `Q` for one class: `Σ_n c_n · log p(y_n; ϑ)` with `c_n = γ_kn · s_n` -/
+noncomputable def compQ {Θ Y : Type} {N : Nat} (fam : Family Θ Y ℝ) (c : Fin N → ℝ) (y : Fin N → Y) (ϑ : Θ) : ℝ :=
+  ∑ n, c n * fam.logPdf ϑ (y n)
+
+end PbBss.EmProof
